@@ -98,7 +98,12 @@ func FamilyOf(prop string, seed, i uint64) string {
 	case "C10":
 		// engine S contributes the framing rule over every family
 		return []string{"reconn", "base", "reconn", "retrymanual"}[i%4]
-	case "C04", "C06", "C07", "C11", "C15", "C20":
+	case "C06":
+		if i%8 == 7 {
+			return "reconn" // SUBACK return codes (failure, downgrade) meeting re-subscription
+		}
+		return "base"
+	case "C04", "C07", "C11", "C15", "C20":
 		return "base"
 	case "C16":
 		if i%3 == 0 {
@@ -212,6 +217,16 @@ func genReconn(r *Rng, prop string) *Scenario {
 		kindW = []int{2, 5, 4}
 		nreq = int(r.between(1, 8))
 		cfg.AlwaysResub = r.chance(0.35)
+	case "C06":
+		// what the broker answers to SUBSCRIBE is data from the peer too: failure
+		// (0x80) and downgraded return codes, then a lost session / re-subscription
+		kindW = []int{2, 6, 2}
+		nreq = int(r.between(1, 8))
+		cfg.AlwaysResub = r.chance(0.35)
+		cfg.CleanSession = r.chance(0.6)
+		for i := 0; i < 4; i++ {
+			cfg.GrantQoS = append(cfg.GrantQoS, []byte{0, 1, 2, 0x80}[r.IntN(4)])
+		}
 	case "C17":
 		handleOps, inbound = true, true
 		nreq = int(r.between(0, 4))
@@ -261,6 +276,22 @@ func genReconn(r *Rng, prop string) *Scenario {
 	}
 	if prop == "C01" || prop == "C18" || prop == "C02" {
 		cfg.OnErrorReenters = r.chance(0.15)
+	}
+	earlyPub := false
+	if (prop == "C01" || prop == "C02" || prop == "C12") && r.chance(0.1) {
+		// single-writer variant with requests: publishes only (nothing inbound, no
+		// keep-alive, every write made by the task goroutine), and the broker's
+		// answer is readable before Transport.Write returns, so the reader
+		// dispatches PUBACK / PUBREC / PUBCOMP before the requester waits for it
+		earlyPub = true
+		cfg.EarlyReply = true
+		cfg.Frag, cfg.JitterUs = nil, nil
+		cfg.PingIntervalUs, cfg.KeepAliveSec = 0, 0
+		if cfg.TimeoutUs == 0 && r.chance(0.5) {
+			cfg.TimeoutUs = r.pickI(1500, 2500, 4000)
+		}
+		cfg.DirectQoS0, cfg.OnErrorReenters = false, false
+		kindW = []int{1, 0, 0}
 	}
 
 	sc.Ops = append(sc.Ops, Op{AtUs: connectAt, Actor: 0, Kind: "connect"})
@@ -396,7 +427,7 @@ func genReconn(r *Rng, prop string) *Scenario {
 			}
 		}
 	}
-	if prop == "C08" && r.chance(0.5) {
+	if (prop == "C08" || prop == "C06") && r.chance(0.5) {
 		sc.Faults = append(sc.Faults, Fault{Kind: "sessionLoss", Conn: int(r.between(2, 4))})
 	}
 
@@ -489,7 +520,7 @@ func genReconn(r *Rng, prop string) *Scenario {
 	// the fake instant of a cause and stay yield-free)
 	switch prop {
 	case "C01", "C02", "C03", "C08", "C09", "C12", "C16", "C17":
-		if r.chance(0.25) {
+		if !earlyPub && r.chance(0.25) {
 			sites := []string{"app.onError", "app.onError", "app.connStateActive", "app.transportClose", "reconn.afterDial", "reconn.afterSetClient", "reconn.afterConnect", "reconn.keepAliveFailed", "reconn.connLost", "reconn.disconnectSeen", "retry.afterTask", "base.afterServe", "base.beforeClosedState", "pub.afterPubRec"}
 			cfg.Yields = map[string]int64{}
 			for i := 0; i < int(r.between(1, 3)); i++ {
